@@ -427,6 +427,19 @@ class Ovld:
 
     def lock(self):
         self._locked = True
+        for mixin in self.mixins:
+            mixin.lock()
+
+    def _lock_parents(self):
+        # Changes to a parent that does not link back to this ovld would not
+        # be propagated, so such a parent, and everything it derives from,
+        # must not change anymore. A linked parent stays modifiable, but the
+        # same reasoning applies to its own parents.
+        for mixin in self.mixins:
+            if self in mixin.children:
+                mixin._lock_parents()
+            else:
+                mixin.lock()
 
     def _attempt_modify(self):
         if self._locked:
@@ -485,9 +498,7 @@ class Ovld:
         This will also lock this ovld's parent mixins to prevent their
         modification.
         """
-        for mixin in self.mixins:
-            if self not in mixin.children:
-                mixin.lock()
+        self._lock_parents()
         _verif.point("compile.locked", ov=self.id)
 
         if self.name is None:
